@@ -183,6 +183,25 @@ def run(tier, seed):
                     lo, hi = ri.min(), ri.max()
                     e2 = me.util.adjust_intervals(ei, None, lo, hi)[0]
                     record("chord.seg", call(lambda: (me.chord.overseg(ri, e2), me.chord.underseg(ri, e2), me.chord.seg(ri, e2))), (ri, e2), {})
+    # fixed witnesses of the input classes of the recorded findings (so that every run exercises them, whatever the seed)
+    w_cem = (np.array([6.5, 6.5, 6.5, 7.5, 8.5]), np.array([6.5, 8.5]))             # Cemgil 1.14 / 1.2 with a triplicated beat
+    w_ig = (np.array([6.0, 6.5, 7.0, 7.0]), np.array([6.0, 6.0, 9.0]))               # information gain NaN with duplicated beats
+    w_close = (6.0 + np.arange(12) * 0.1, 6.0 + np.arange(12) * 0.1 + 0.02)          # best-metric-level Cemgil 1.08: beats 0.1 s apart
+    for fnn, fn_, a_ in (("beat.cemgil", me.beat.cemgil, w_cem), ("beat.evaluate", me.beat.evaluate, w_cem),
+                         ("beat.information_gain", me.beat.information_gain, w_ig), ("beat.evaluate", me.beat.evaluate, w_ig),
+                         ("beat.cemgil", me.beat.cemgil, w_close), ("beat.evaluate", me.beat.evaluate, w_close)):
+        record(fnn, call(fn_, *a_), a_, {}, wellsep=False)
+    wa = (np.array([-1.0, 1.0]), np.array([1.0, 0.0]))
+    record("chord.weighted_accuracy", call(me.chord.weighted_accuracy, *wa), wa, {})
+    fs_w = {"frame_size": 0.25}
+    w_dist = (np.array([[0.0, 0.25], [0.25, 0.5], [0.5, 0.75]]), ["a", "b", "c"], np.array([[0.0, 0.25], [0.25, 0.5], [0.5, 0.75]]), ["x", "y", "z"])
+    w_one = (np.array([[0.0, 0.25]]), ["a"], np.array([[0.0, 0.25]]), ["b"])
+    w_two = (np.array([[0.0, 0.25], [0.25, 0.5]]), ["a", "b"], np.array([[0.0, 0.25], [0.25, 0.5]]), ["x", "y"])     # AMI NaN
+    for a_ in (w_dist, w_one, w_two):
+        for fnn, fn_ in (("segment.pairwise", me.segment.pairwise), ("segment.rand_index", me.segment.rand_index),
+                         ("segment.mutual_information", me.segment.mutual_information), ("segment.evaluate", me.segment.evaluate)):
+            fl = {"emptyside": True} if fnn == "segment.evaluate" and a_ is w_one else {}
+            record(fnn, call(fn_, *a_, **fs_w), a_, fs_w, **fl)
     rejects, st = trace.validate_par("Trace_Range", events)
     ev.tlc("Trace_Range", st, "kind/range verdict on every returned value")
     ev.cov["traces_validated_against_impl"] = len(events)
